@@ -2,6 +2,7 @@ import DaskModel.Lemmas.TruthfulPaths
 import DaskModel.Props.C45
 import DaskModel.Props.C40
 import DaskModel.Lemmas.RepartDivs
+import DaskModel.Lemmas.RepartWalk
 /-! # C41 — known divisions always describe the partitions truthfully (theorems)
 
 `Truthful key divs parts` (Lemmas/Truthful.lean) is the statement's predicate. One theorem per
@@ -842,7 +843,17 @@ theorem concat_monotonic_truthful {α : Type} (key : α → Nat) (d1 d2 : List N
       · refine Or.inr ⟨?_, h'⟩
         simp only [List.length_append]; omega
 
-/-- **`repartition(divisions = b)` reports truthful divisions** — `_partial` (certified layers, see
+/-- **`repartition(divisions = b)` reports truthful divisions** (full: both walks of `RepartitionDivisions._layer`
+    proved, `Lemmas/RepartWalk.lean`): for every frame truthful for legal divisions `a` with partitions in index order
+    and every legal `b` the guards accept, the layer is built, evaluates, and the result is truthful for `b`. -/
+theorem repartition_divisions_truthful {α : Type} (key : α → Nat) (parts : List (List α)) (a b : List Nat)
+    (force : Bool) (hva : ValidDivs a) (hvb : ValidDivs b) (ht : Truthful key a parts)
+    (hsorted : ∀ p ∈ parts, KeySorted key p) (g : Nat × Nat × Nat × Nat) (hg : dlGuards a b force = some g) :
+    ∃ out, repartitionDivisions key parts a b force = some out ∧ Truthful key b out := by
+  obtain ⟨out, h1, _, h3⟩ := divisions_walk_correct (key := key) ⟨ht, hsorted, hva⟩ hvb hg
+  exact ⟨out, h1, h3⟩
+
+/-- the same for every layer that passes the run-time certificate (`_partial`: certified layers, see
     `C44.divisions_rows_order_truthful_partial`): for every frame truthful for `a` with partitions in index order and
     every layer of `RepartitionDivisions` that passes `layerOK a b`, the result is truthful for `b`. -/
 theorem repartition_divisions_truthful_partial {α : Type} (key : α → Nat) (parts : List (List α)) (a b : List Nat)
